@@ -93,7 +93,7 @@ CancelTimer(x) == IF x.s.timer = "none" THEN x
 BeginCommit(x, v) ==
   LET x1 == StartTimer([x EXCEPT !.s.S = "CommitWait"], "CommitWait")
       b == MostVoted(v.pc)
-  IN IF b \in v.phs THEN Out(x1, [t |-> "finalizeReq", h |-> x.s.H, r |-> v.r, block |-> b, why |-> "quorum"]) ELSE x1
+  IN IF b \in v.phs THEN Out(x1, [t |-> "finalizeReq", h |-> x.s.H, r |-> v.r, block |-> b, why |-> "quorum", _pow |-> Cardinality(v.pc[b])]) ELSE x1
 
 \* the entrance response resp chosen by the environment: [kind |-> "VRV", v |-> view] or [kind |-> "CH", block |-> b, r |-> round]
 \* [beginRoundLive]
@@ -126,7 +126,7 @@ Enter(x, resp) ==
          \* CommitWaitElapsed
          Out([x EXCEPT !.s.replaying = TRUE, !.s.vrv = NoView, !.s.propCh = FALSE, !.s.prevoteCh = FALSE,
                        !.s.precommitCh = FALSE, !.s.cwElapsed = TRUE, !.s.S = "Catchup"],
-             [t |-> "finalizeReq", h |-> x.s.H, r |-> resp.r, block |-> resp.block, why |-> "catchup"])
+             [t |-> "finalizeReq", h |-> x.s.H, r |-> resp.r, block |-> resp.block, why |-> "catchup", _pow |-> 0])
 
 \* [advanceRound]: Reset, store write, round entrance (the response is supplied by the next macro step)
 AdvanceRound(x) ==
@@ -197,7 +197,7 @@ CommitWaitViewUpdate(x, v) ==
   IF ~x.s.finCh THEN x
   ELSE IF MostVoted(x.s.vrv.pc) \in x.s.vrv.phs THEN x
   ELSE IF MostVoted(v.pc) \in v.phs
-         THEN Out(x, [t |-> "finalizeReq", h |-> x.s.H, r |-> v.r, block |-> MostVoted(v.pc), why |-> "quorum"])
+         THEN Out(x, [t |-> "finalizeReq", h |-> x.s.H, r |-> v.r, block |-> MostVoted(v.pc), why |-> "quorum", _pow |-> Cardinality(v.pc[MostVoted(v.pc)])])
   ELSE x
 
 \* [handleJumpAhead]
@@ -302,7 +302,7 @@ Boot(st, resp) ==
       x0 == Out(Ctx0(s0, st), [t |-> "entrance", h |-> pos[1], r |-> pos[2]])
   IN IF resp.kind = "CH"
        THEN Out([x0 EXCEPT !.s.replaying = TRUE, !.s.S = "Catchup"],
-                [t |-> "finalizeReq", h |-> pos[1], r |-> resp.r, block |-> resp.block, why |-> "catchup"])
+                [t |-> "finalizeReq", h |-> pos[1], r |-> resp.r, block |-> resp.block, why |-> "catchup", _pow |-> 0])
        ELSE
         \* a proposal already recorded for this round is re-sent instead of asking the strategy again;
         \* stored prevotes/precommits are NOT consulted (TODO in initializeRLC)
